@@ -229,6 +229,9 @@ func (c *Ctx) tableBody(s *Sort, d interface{}) string {
 			return "true"
 		}
 		return "false"
+	case SStr:
+		str, _ := d.(string)
+		return c.strLit(strings.TrimPrefix(str, "s:")).S
 	case SArray:
 		dl, _ := d.([]interface{})
 		// default element = most frequent rendering, to keep the term small
